@@ -39,7 +39,7 @@ fn vk_mfi_reset_fresh<const P: usize, const K: usize>() {
 }
 // @harness vk_mfi_reset_fresh_p2 props=C04 kind=bounded(period=2,history=5) tier=quick
 #[kani::proof] #[kani::unwind(8)] fn vk_mfi_reset_fresh_p2() { vk_mfi_reset_fresh::<2, 5>() }
-// @harness vk_mfi_reset_fresh_p3 props=C04 kind=bounded(period=3,history=7) tier=thorough
+// @harness vk_mfi_reset_fresh_p3 props=C04 kind=bounded(period=3,history=7) tier=quick
 #[kani::proof] #[kani::unwind(10)] fn vk_mfi_reset_fresh_p3() { vk_mfi_reset_fresh::<3, 7>() }
 
 // derived Clone is a deep copy (any field values): fieldwise bit-equal, distinct buffer allocation, and feeding the clone
